@@ -510,7 +510,7 @@ class DrillholeScenario(BaseScenario):
         for j, kind in enumerate(kinds):
             name = f"{'d' if kind == 'depth' else 'i'}{op_id}{'' if len(kinds) == 1 else '_' + str(j)}"
             if kind == "depth":
-                dtype = r.choices(["float", "int", "ref"], [6, 2, 2])[0]
+                dtype = r.choices(["float", "int", "ref", "text"], [6, 2, 2, 2])[0]
                 items = self.gen_depths(sim, st, r, tol, tent_depths)
                 if not items:
                     continue
